@@ -473,32 +473,32 @@ int main(int argc, char** argv)
     std::vector<std::string> const both{"quick", "thorough"};
 #if defined(MC_FLAVOUR_SAN)
     // sanitizer build: only the raw-pointer jobs (the wrappers check their own ranges; keeps the compile small)
-    m.job("copy/ptr->ptr", both, [](mc::Reporter& r) { job_copy<PtrF, PtrF>(r, 5, 7); });
-    m.job("overwrite/ptr", both, [](mc::Reporter& r) { job_overwrite<PtrF>(r, 5, 7); });
+    m.job("copy/ptr->ptr", both, [](mc::Reporter& r) { job_copy<PtrF, PtrF>(r, 5, 8); });
+    m.job("overwrite/ptr", both, [](mc::Reporter& r) { job_overwrite<PtrF>(r, 5, 8); });
     m.job("count/ptr", both, [](mc::Reporter& r) {
         Ctx c(r);
         count_family<PtrF>(c, 8);
         r.sample("ptr: fill_n/generate_n for every count in [-1,8]");
     });
-    m.job("two-source/ptr+ptr->ptr", both, [](mc::Reporter& r) { job_two_source<PtrF, PtrF, PtrF>(r, 4, 5); });
+    m.job("two-source/ptr+ptr->ptr", both, [](mc::Reporter& r) { job_two_source<PtrF, PtrF, PtrF>(r, 4, 6); });
 #else
 #if !defined(MC_PART) || MC_PART == 1
-    m.job("copy/ptr->ptr", both, [](mc::Reporter& r) { job_copy<PtrF, PtrF>(r, 5, 7); });
-    m.job("copy/input->output", both, [](mc::Reporter& r) { job_copy<InF, OutF>(r, 5, 7); });
+    m.job("copy/ptr->ptr", both, [](mc::Reporter& r) { job_copy<PtrF, PtrF>(r, 5, 8); });
+    m.job("copy/input->output", both, [](mc::Reporter& r) { job_copy<InF, OutF>(r, 5, 8); });
 #endif
 #if !defined(MC_PART) || MC_PART == 2
-    m.job("copy/fwd->fwd", both, [](mc::Reporter& r) { job_copy<FwdF, FwdF>(r, 5, 7); });
-    m.job("copy/bidi->bidi", both, [](mc::Reporter& r) { job_copy<BidiF, BidiF>(r, 5, 7); });
+    m.job("copy/fwd->fwd", both, [](mc::Reporter& r) { job_copy<FwdF, FwdF>(r, 5, 8); });
+    m.job("copy/bidi->bidi", both, [](mc::Reporter& r) { job_copy<BidiF, BidiF>(r, 5, 8); });
 #endif
 #if !defined(MC_PART) || MC_PART == 3
-    m.job("copy/ra->back_inserter", both, [](mc::Reporter& r) { job_copy<RaF, BackInsF>(r, 5, 7); });
-    m.job("copy/rev->ra", both, [](mc::Reporter& r) { job_copy<RevF, RaF>(r, 5, 6); });
+    m.job("copy/ra->back_inserter", both, [](mc::Reporter& r) { job_copy<RaF, BackInsF>(r, 5, 8); });
+    m.job("copy/rev->ra", both, [](mc::Reporter& r) { job_copy<RevF, RaF>(r, 5, 7); });
 #endif
 #if !defined(MC_PART) || MC_PART == 4
-    m.job("overwrite/ptr", both, [](mc::Reporter& r) { job_overwrite<PtrF>(r, 5, 7); });
-    m.job("overwrite/fwd", both, [](mc::Reporter& r) { job_overwrite<FwdF>(r, 5, 7); });
-    m.job("overwrite/bidi", both, [](mc::Reporter& r) { job_overwrite<BidiF>(r, 5, 7); });
-    m.job("overwrite/ra", both, [](mc::Reporter& r) { job_overwrite<RaF>(r, 5, 6); });
+    m.job("overwrite/ptr", both, [](mc::Reporter& r) { job_overwrite<PtrF>(r, 5, 8); });
+    m.job("overwrite/fwd", both, [](mc::Reporter& r) { job_overwrite<FwdF>(r, 5, 8); });
+    m.job("overwrite/bidi", both, [](mc::Reporter& r) { job_overwrite<BidiF>(r, 5, 8); });
+    m.job("overwrite/ra", both, [](mc::Reporter& r) { job_overwrite<RaF>(r, 5, 7); });
     m.job("count/ptr", both, [](mc::Reporter& r) {
         Ctx c(r);
         count_family<PtrF>(c, 8);
@@ -511,9 +511,9 @@ int main(int argc, char** argv)
         count_family<BackInsF>(c, 8);
         r.sample("output/fwd/back_inserter: fill_n/generate_n for every count in [-1,8]");
     });
-    m.job("two-source/ptr+ptr->ptr", both, [](mc::Reporter& r) { job_two_source<PtrF, PtrF, PtrF>(r, 4, 5); });
-    m.job("two-source/input+input->output", both, [](mc::Reporter& r) { job_two_source<InF, InF, OutF>(r, 4, 5); });
-    m.job("two-source/fwd+fwd->fwd", both, [](mc::Reporter& r) { job_two_source<FwdF, FwdF, FwdF>(r, 4, 5); });
+    m.job("two-source/ptr+ptr->ptr", both, [](mc::Reporter& r) { job_two_source<PtrF, PtrF, PtrF>(r, 4, 6); });
+    m.job("two-source/input+input->output", both, [](mc::Reporter& r) { job_two_source<InF, InF, OutF>(r, 4, 6); });
+    m.job("two-source/fwd+fwd->fwd", both, [](mc::Reporter& r) { job_two_source<FwdF, FwdF, FwdF>(r, 4, 6); });
 #endif
 #endif
     return m.run();
